@@ -171,7 +171,7 @@ struct H{
 		if(fn == 0){
 			Ix idx; if(idxGiven) idx = *idxGiven; else for(std::size_t j = 0; j != n; ++j) idx.push_back((a * j + b) % k);
 			for(std::size_t j = 0; j != n; ++j) wanted[base[j].first] = idx[j];
-			out = createCVIndexed(s, k, idx, bs);
+			out = bs == 256 ? createCVIndexed(s, k, idx) : createCVIndexed(s, k, idx, bs);      // 256: the default argument
 			e.wanted = &wanted;
 		}else if(fn == 1){
 			RecreationIndices ri;
@@ -179,15 +179,15 @@ struct H{
 			bool isPerm = true; { Ix t = ri.first; std::sort(t.begin(), t.end()); for(std::size_t i = 0; i != n; ++i) if(t[i] != i) isPerm = false; }
 			if(isPerm){ for(std::size_t j = 0; j != n; ++j) wanted[base[ri.first[j]].first] = ri.second[j]; e.wanted = &wanted; }
 			else{ Flat g; for(std::size_t j = 0; j != n; ++j) g.push_back(base[ri.first[j]]); e.base = g; }   // a gather, not a partition of the original
-			out = createCVFullyIndexed(s, k, ri, bs);
+			out = bs == 256 ? createCVFullyIndexed(s, k, ri) : createCVFullyIndexed(s, k, ri, bs);
 		}else if(fn == 2){
-			out = createCVIID(s, k, bs);
+			out = bs == 256 ? createCVIID(s, k) : createCVIID(s, k, bs);
 			wanted = foldOf(out);
 			Ix drawn; for(std::size_t j = 0; j != n; ++j) drawn.push_back(wanted.count(base[j].first) ? wanted[base[j].first] : 0);
 			os << "obs=" << showNats(drawn) << " ";
 			e.wanted = &wanted;
 		}else if(fn == 3){
-			out = createCVSameSize(s, k, bs);
+			out = bs == 256 ? createCVSameSize(s, k) : createCVSameSize(s, k, bs);
 			std::map<std::size_t, std::size_t> posOf; for(std::size_t j = 0; j != n; ++j) posOf[base[j].first] = j;
 			Ix p; for(Elem const& x: flat(out.dataset())) p.push_back(posOf.count(x.first) ? posOf[x.first] : n);
 			os << "obs=" << showNats(p) << " ";
